@@ -14,7 +14,8 @@ META = {
                  "Rust rules by placing every construct in every syntactic slot and taking an independent census of the "
                  "real output inside Coq",
     "level_text": "Machine-checked theorems over the full syntax (all nesting depths) that the modelled traversal with each "
-                  "rule's rewrite leaves no occurrence of the targeted construct; on every run each construct is placed in "
+                  "rule's rewrite leaves no occurrence of the targeted construct (all nine rules, remove_continue included, and "
+                  "their composition in any order); on every run each construct is placed in "
                   "every child slot of every node kind (exhaustive at depth 1, sampled/exhaustive at depth 2), the real rule "
                   "is applied (on the tree and end to end), and a census function written independently in Coq counts the "
                   "construct in darklua's output tree; number spellings are checked on the written text.",
@@ -34,9 +35,8 @@ META = {
                     "remove_continue (Model/RemoveContinue.v, modelled in full: traversal order, loop stack, numbering, "
                     "names): `continue` is removed from every program whose `continue`s are all inside a loop of the same "
                     "function (continue_in_loops; exact: C07_removes_continue_iff); the code leaves a `continue` outside "
-                    "any loop in place (C07_removes_continue_refuted; such a program is not valid Luau). 'Any order of all "
-                    "nine rules' is proved with remove_continue at any position provided the tree reaching it is still in "
-                    "that domain (C07_all_lowered9_partial); that the other eight rules preserve the domain is not proved"],
+                    "any loop in place (C07_removes_continue_refuted; such a program is not valid Luau), so the nine-rule "
+                    "theorem C07_all_lowered9 (any order) is stated for programs in that domain"],
 }
 
 # ---------------------------------------------------------------------------------------------
@@ -53,7 +53,9 @@ ES = ["local v = HOLE", "local a, b = 1, HOLE", "v = HOLE", "t.f = HOLE", "t[HOL
       "t[HOLE] += 1", "f(HOLE)", "o:m(HOLE)", "if HOLE then end", "if c then elseif HOLE then end",
       "while HOLE do end", "repeat until HOLE", "for i = HOLE, 2 do end", "for i = 1, HOLE do end",
       "for i = 1, 2, HOLE do end", "for k, v in HOLE do end", "for k in f, HOLE do end", "return HOLE",
-      "local v: typeof(HOLE) = 1", "type T = typeof(HOLE)", "function t.f(a) return HOLE end",
+      "local v: typeof(HOLE) = 1", "type T = typeof(HOLE)", "for k: typeof(HOLE), v in pairs(t) do end",
+      "for k, v: typeof(HOLE) in pairs(t) do end", "for i: typeof(HOLE) = 1, 2 do end",
+      "local function g(a: typeof(HOLE)): typeof(HOLE) end", "function t.f(a: typeof(HOLE), ...: typeof(HOLE)) end", "function t.f(a) return HOLE end",
       "local function g() return HOLE end", "local v = (HOLE) :: typeof(HOLE)", "t[1], t[HOLE] = 1, 2"]
 
 SS = ["do HOLE end", "if c then HOLE end", "if c then else HOLE end", "if c then elseif d then HOLE end",
